@@ -1028,3 +1028,42 @@ func checkDecoderRowsCleared(c *Ctx, rule string) {
 	}
 	c.Check(rule, "Result.Scan/reset-before-decode", sc.Pos(), okReset, "Scan resets the row counter and clears the scalar row before decoding (one decoder instance is reused for every log)")
 }
+
+// loopCollections: the collections ranged over by the loops that enclose `in`
+// (innermost first): for `for i := range X` / `for _, e := range X`.
+func loopCollections(in ssa.Instruction) []ssa.Value {
+	fn := in.Parent()
+	var out []ssa.Value
+	b := in.Block()
+	for d := b; d != nil; d = d.Idom() {
+		iff, ok := terminator(d).(*ssa.If)
+		if !ok {
+			continue
+		}
+		bo, ok := iff.Cond.(*ssa.BinOp)
+		if !ok || bo.Op != token.LSS || !isInduction(bo.X) {
+			continue
+		}
+		// in must be inside the loop: reachable from the true successor and able to come back to the header
+		r1, _ := reach(Site{d.Succs[0], -1}, isInstr(in), nil)
+		r2, _ := reach(siteOf(in), isInstr(iff), nil)
+		if !(r1 || d.Succs[0] == in.Block()) || !r2 {
+			continue
+		}
+		if arg, ok := lenArg(bo.Y); ok {
+			out = append(out, arg)
+		}
+	}
+	_ = fn
+	return out
+}
+
+// isSelectedCall: v is the result of X.Event.Selected() / Event.Selected() on the given base chain.
+func isSelectedOf(v ssa.Value) bool {
+	call, k := resultOf(v)
+	if call == nil || k != 0 {
+		return false
+	}
+	f := staticCallee(call)
+	return f != nil && f.Name() == "Selected" && f.Signature.Recv() != nil && repoNamedIs(f.Signature.Recv().Type(), "dig", "Event")
+}
